@@ -16,7 +16,7 @@ RULE = ('Plans as in C01 (1..3 inputs, all standard kinds, 11 networks); per inp
         '+-1, output script byte flip, output added/removed, outpoint hash/index, sequence, locktime, version, input '
         'amount (segwit), signature bit flip / signature of another digest / signature by an outsider key, one '
         'signature removed (optionally padded with a duplicate). Medium: live object or serialised bytes re-parsed '
-        '(amounts and p2pk keys re-supplied). Non-trivial = multisig with m<n and a signer order different from '
+        '(amounts and p2pk keys re-supplied). Non-trivial = mu[tampers include the two version attributes separately; plans may pass the prevout scriptPubKey as locking_script; raw output scripts with non-minimal pushes] ltisig with m<n and a signer order different from '
         'key order or a partial history, or any tampered case the reference rejects; distinct by case hash.')
 ASSUMPTIONS = ['tamper operators are a finite single-field family', 'ref/interp.py consensus rules (no policy)',
                'only listed keys: a P2PKH input built from an address hash and signed with an unrelated key is '
